@@ -142,3 +142,29 @@ class ConfigProxy:
 
     def observe(self, text):
         self.ck.observe('[%s] %s' % (self.cfg, text))
+
+
+class FilterProxy:
+    """runs another property's rule module but keeps only the listed rules, re-filed under rule ids of this property
+    (a necessary condition shared by two properties is decided once and reported under both)"""
+    def __init__(self, ck, mapping):
+        self.ck, self.mapping = ck, mapping
+        self.decided, self.undecided = [], []
+
+    @property
+    def notes(self):
+        return self.ck.notes
+
+    def rule(self, rid, text):
+        pass
+
+    def ob(self, rule, key, ok, detail='', loc=None):
+        if rule in self.mapping:
+            return self.ck.ob(self.mapping[rule], '%s:%s' % (rule, key), ok, detail, loc)
+
+    def floor(self, rule, what, count, floor):
+        if rule in self.mapping:
+            return self.ck.floor(self.mapping[rule], '%s %s' % (rule, what), count, floor)
+
+    def observe(self, text):
+        pass
